@@ -22,7 +22,7 @@ Theorem C08_cell_value_is_ieee_op :
   forall o v1 v2,
   cell_val o v1 v2 = match o with Add => fadd v1 v2 | Sub => fsub v1 v2
                                 | Mul => fmul v1 v2 | Div => fdiv v1 v2 end.
-Proof. intros []; reflexivity. Qed.
+Proof. exact cell_val_ieee. Qed.
 Print Assumptions C08_cell_value_is_ieee_op.
 
 (* ---- error between datasets: the expression tree [err_dd] on the four cells ---- *)
@@ -43,11 +43,7 @@ Theorem C08_error_is_first_order_propagation :
   derivable_pt_lim (fun x => valR o x v2) v1 (d1 o v1 v2) /\
   derivable_pt_lim (fun y => valR o v1 y) v2 (d2 o v1 v2) /\
   errR_dd o v1 e1 v2 e2 = sqrt (Rsqr (d1 o v1 v2 * e1) + Rsqr (d2 o v1 v2 * e2)).
-Proof.
-  exact (fun o v1 e1 v2 e2 H =>
-           conj (valR_partial_left o v1 v2 H)
-                (conj (valR_partial_right o v1 v2 H) (errR_dd_first_order o v1 e1 v2 e2 H))).
-Qed.
+Proof. exact errR_dd_propagation. Qed.
 Print Assumptions C08_error_is_first_order_propagation.
 
 Theorem C08_sum_difference_quadratic_sum_of_absolute_errors :
@@ -69,7 +65,7 @@ Theorem C08_constant_error_formula_R :
   forall o e1 c,
   errR_dc o e1 c = match o with Add | Sub => e1 | Mul => (e1 * Rabs c)%R | Div => (e1 / Rabs c)%R end
   /\ forall v1, (0 <= e1)%R -> (o = Div -> c <> 0%R) -> errR_dd o v1 e1 c 0 = errR_dc o e1 c.
-Proof. exact (fun o e1 c => conj (errR_const o e1 c) (fun v1 => errR_dd_const o v1 e1 c)). Qed.
+Proof. exact errR_const_both. Qed.
 Print Assumptions C08_constant_error_formula_R.
 
 (* ---- binary64: a constant factor scales the error by its magnitude ---- *)
@@ -77,7 +73,7 @@ Theorem C08_const_factor_scales_by_abs :
   forall d c x,
   (binop Mul d (RNum c) = Ok x -> error x = map (fun e => fmul e (fabs c)) (error d)) /\
   (binop Div d (RNum c) = Ok x -> error x = map (fun e => fdiv e (fabs c)) (error d)).
-Proof. exact (fun d c x => conj (binop_error_const_mul d c x) (binop_error_const_div d c x)). Qed.
+Proof. exact binop_error_const_factor. Qed.
 Print Assumptions C08_const_factor_scales_by_abs.
 
 Theorem C08_const_factor_sign_is_irrelevant_for_the_error :
